@@ -37,7 +37,8 @@ def gen_case(rng):
                 'block': False, '_reg': ra['obj'], '_pclass': 'valid'},
                {'op': 'bind', 'scope': 'a', 'sel': rb['_selector'], 'arg': pb, 'val': {'macro': 'm2'}, '_form': 'text',
                 'block': False, '_reg': rb['obj'], '_pclass': 'valid'},
-               {'op': 'finalize'}, {'op': 'locked'}]
+               {'op': 'finalize', '_enter': G.gen_enter(rng, rng.choice(scopes)) if rng.random() < 0.6 else []},
+               {'op': 'locked'}]
       ops += extra
   ops += [{'op': 'locked'}, {'op': 'config'}, {'op': 'registry'}]
   return {'dom': 'gin', 'ops': ops}
